@@ -11,7 +11,7 @@ inductive ApiOut
   deriving Repr, DecidableEq
 
 def regionsKey : Bytes := "regions-key".toUTF8.toList
-def bootRec : KVRec := { key := bootstrappedKey, value := "true".toUTF8.toList, finalized := true }
+def bootRec : KVRec := { key := bootstrappedKey, value := trueValue, finalized := true }
 def regionsRec (enc : Bytes) : KVRec := { key := regionsKey, value := enc, finalized := true }
 theorem bootRec_key : bootRec.key.isEmpty = false := by decide +kernel
 theorem bootRec_val : bootRec.value.isEmpty = false := by decide +kernel
